@@ -167,6 +167,13 @@ class Sim:
                 pass
 
     def close(self):
+        # objects of the code under test may outlive this run (a cache of counters, say): they keep their last value and re-attach to the next run
+        for obj in self.__dict__.get('_raws', ()):
+            try:
+                obj._last = int(self.raw[obj._r])
+            except Exception:
+                pass
+            obj._sim = None
         for r, w in self.pipes:
             for fd in (r, w):
                 try:
@@ -664,7 +671,9 @@ class Sim:
             raise RuntimeError('procsim: raw table full')
         self.hdr[H_NRAW] = r + 1
         self.raw[r] = init
-        return SimRaw(self, r)
+        obj = SimRaw(self, r)
+        self.__dict__.setdefault('_raws', []).append(obj)
+        return obj
 
     # ---------------------------------------------------------------- tracing
 
@@ -709,40 +718,62 @@ def set_range_next_code(code):
 
 
 class SimLock:
-    '''Non-recursive, non-robust lock with the semantics of a POSIX semaphore: a killed holder never releases.'''
+    '''Non-recursive, non-robust lock with the semantics of a POSIX semaphore: a killed holder never releases.
+    A lock object that outlives the run it was created in re-attaches (unlocked) to the run that uses it next.'''
 
     def __init__(self, sim, l):
         self._sim = sim
         self._l = l
 
+    def _bound(self):
+        cur = _CURRENT
+        if cur is not None and cur is not self._sim and cur.active and not cur.postmortem and 'lock_owner' in cur.__dict__:
+            fresh = cur.new_lock()
+            self._sim, self._l = cur, fresh._l
+        return self._sim
+
     def acquire(self, block=True, timeout=None):
-        return self._sim.acquire(self._l)
+        return self._bound().acquire(self._l)
 
     def release(self):
-        self._sim.release(self._l)
+        self._bound().release(self._l)
 
     def __enter__(self):
-        return self._sim.acquire(self._l)
+        return self._bound().acquire(self._l)
 
     def __exit__(self, *exc):
-        self._sim.release(self._l)
+        self._bound().release(self._l)
 
 
 class SimRaw:
+    '''Shared integer.  One that outlives the run it was created in keeps its last value and re-attaches to the run that uses it next.'''
 
     def __init__(self, sim, r):
         self._sim = sim
         self._r = r
+        self._last = int(sim.raw[r])
+
+    def _bound(self):
+        cur = _CURRENT
+        if cur is not None and cur is not self._sim and cur.active and not cur.postmortem and 'raw' in cur.__dict__:
+            fresh = cur.new_raw(self._last)
+            self._sim, self._r = cur, fresh._r
+        return self._sim
 
     @property
     def value(self):
-        sim = self._sim
+        sim = self._bound()
+        if sim is None:
+            return self._last
         sim.yield_point(K_RGET, self._r)
         return int(sim.raw[self._r])
 
     @value.setter
     def value(self, v):
-        sim = self._sim
+        sim = self._bound()
+        if sim is None:
+            self._last = int(v)
+            return
         sim.yield_point(K_RSET, self._r, int(v))
         sim.raw[self._r] = v
 
